@@ -16,7 +16,12 @@ def ground_unit(name, fn):
 def try_candidates(spec_name, candidates, key=None, limit=2000):
     """Run concrete candidates through the real code until one fails the contract."""
     import itertools
-    inputs = list(itertools.islice(candidates, limit))
+    inputs = []
+    try:
+        for x in itertools.islice(candidates, limit):
+            inputs.append(x)
+    except Exception:  # noqa  a generator that trips over a malformed tree: use what we have
+        pass
     res = chk.run_replay_batch(spec_name, inputs)
     if res.get("fails"):
         inp = res.get("input")
